@@ -51,7 +51,7 @@ class PGen:
                 kinds.append(("user", 3))
             if depth < 3:
                 w = 2 if depth < 2 else 1
-                kinds += [("if", w), ("while", (1 if depth < 2 else 0.5) if allow_user else 0), ("do", 1 if depth <= 1 and len(self.subflows) < 3 else 0), ("exec", 2 if depth < 2 else 1)]
+                kinds += [("if", w), ("while", (1.5 if depth < 2 else 0.5) if allow_user else 0), ("do", 1 if depth <= 1 and len(self.subflows) < 3 else 0), ("exec", 2 if depth < 2 else 1)]
             if depth < 3 and ((edge == "last" and s == n - 1) or (edge == "first" and s == 0)):
                 kinds = [x for x in kinds if x[0] in ("if", "while", "do")]
             k = d.weighted([x for x in kinds if x[1] > 0], key, s, "kind")
@@ -87,7 +87,7 @@ class PGen:
                     wbody = [{"k": "do", "name": name}] + ([{"k": "set", "var": "x0", "val": d.randint(0, 3, key, s, "wv")}] if d.chance(0.4, key, s, "ws") else [])
                 else:
                     wbody = [self.user(), self.bot()] + ([{"k": "set", "var": "x0", "val": d.randint(0, 3, key, s, "wv")}] if d.chance(0.3, key, s, "ws") else []) \
-                        + (self.block(depth + 1, (key, s, "wb"), False) if depth < 2 and d.chance(0.3, key, s, "wblk") else [])
+                        + (self.block(depth + 1, (key, s, "wb"), d.chance(0.5, key, s, "wbu")) if depth < 2 and d.chance(0.4, key, s, "wblk") else [])
                 out.append({"k": "while", "var": v, "limit": d.randint(1, 3, key, s, "lim"), "body": wbody})
             elif k == "do":
                 name = "sub%d" % len(self.subflows)
